@@ -63,6 +63,22 @@ def step (s : St) (pre post : List String) : St × Verdict :=
         else if kind = "burn" && d > 0 then (s', .propfail "burn-grew-supply" s!"delta={d}")
         else (s', .ok)
     | _, _ => (s, .bad "ext")
+  | "dropped" :: ws =>
+    -- an operation on a discarded cache layer: the state must be exactly the previous one
+    match post, s.prev with
+    | _ :: bw, some p =>
+      match parseBank bw with
+      | none => (s, .bad "bank")
+      | some b =>
+        let s' := { s with prev := some b }
+        let line := "dropped " ++ " ".intercalate ws
+        match invVerdict b line with
+        | some v => (s', v)
+        | none =>
+          if b.supply ≠ p.supply || !sameAccts b.accts p.accts then
+            (s', .propfail "discarded-write-leaked" s!"{line}: {if b.supply ≠ p.supply then s!"supply {p.supply} -> {b.supply}" else firstDiff b.accts p.accts}")
+          else (s', .ok)
+    | _, _ => (s, .bad "dropped")
   | ["sync", what] =>
     match parseBank post, s.prev with
     | some b, some p =>
